@@ -27,6 +27,16 @@ CLAIMED = {
             "as traces event by event.",
             "Columns are identified by factorising outputs on a row of distinct primes (data independence of the "
             "kernels); scikit-learn's powers_ is used to cross-check the spec's enumeration."),
+    "C12": ("DESIGN 4/C12",
+            "TLA+ specs DigitizeTree (explicit-stack machine of the recursive construction) and TreeBox (tree growth "
+            "+ parent walk): TLC model checking + spec->code replay + trace validation of recorded add-node calls and "
+            "fitted trees",
+            "TLC checks Eval = numpy.digitize for every bin count/direction/query class in the bound and box <=> routed "
+            "for every tree in the bound; every TLC case is replayed on the real functions (recorded tree_add_node "
+            "sequence; TLC trees realised as real scikit-learn Trees), random bins and fitted trees (depth-first, "
+            "best-first, one-node) are validated as traces.",
+            "Dyadic edges / integer data so float32 casts and midpoints are exact; numpy.digitize and sklearn apply are "
+            "used to cross-check the spec's own Digitize/Route definitions (a mismatch is a machinery failure)."),
 }
 
 PENDING_REASON = "check not built yet in this round (planned: see DESIGN.md section 4); not claimed until it runs"
